@@ -45,5 +45,18 @@ RaceCases == { [cls |-> "race", in |-> [kind |-> "save", notes |-> ns, race |-> 
 \* stored data on restore: key id must be the id of the key
 Corruptions == {"none", "key_byte", "key_id_byte", "key_zero", "id_zero", "key_short", "swap_key_other"}
 RestoreCases == { [cls |-> "restore", in |-> [kind |-> "restore", how |-> h], expect |-> [ok |-> (h = "none")]] : h \in Corruptions }
-ASSUME Dump == \A c \in SaveCases \cup RaceCases \cup RestoreCases : PrintT(ToJson(c))
+\* The layer below (telegram/internal/manager Conn): a connection learns its DC from the answer to initConnection
+\* (help.getConfig); session notifications that arrive earlier are buffered and delivered with that config; an optional
+\* setup callback (auth transfer for a re-keyed connection to another DC) runs between the answer and readiness.  In
+\* whichever phase the notification arrives, the client sees it with the configuration of the connection it came from:
+\* the saved session (a primary session of DC 2 with key 9 exists) changes only for a connection to the primary DC.
+ConnKinds == {"primary", "other", "cdn"}
+ConnDC(k) == CASE k = "primary" -> Primary [] k = "other" -> 4 [] k = "cdn" -> 203
+Before == [dc |-> Primary, key |-> 9, salt |-> 109]
+ManagerCases == { [cls |-> "manager", in |-> [kind |-> "manager", conn |-> k, dc |-> ConnDC(k), setup |-> su, phase |-> ph, key |-> n],
+                   expect |-> [saved |-> IF Saves([kind |-> IF k = "cdn" THEN "cdn" ELSE "x", dc |-> ConnDC(k)], Primary)
+                                         THEN [dc |-> ConnDC(k), key |-> n, salt |-> 100 + n] ELSE Before]]
+                  : k \in ConnKinds, su \in BOOLEAN, ph \in {"pre_config", "in_setup", "post_init"}, n \in {1, 2} }
+KeepManager(c) == c.in.conn = "cdn" => ~c.in.setup
+ASSUME Dump == \A c \in SaveCases \cup RaceCases \cup RestoreCases \cup {x \in ManagerCases : KeepManager(x)} : PrintT(ToJson(c))
 =============================================================================
